@@ -2,100 +2,90 @@
 Driver of C02: case {"cfg":…, "pool":[rule…], "probes":[req…], "ops":[op…]}
 (rule / req / cfg format: RioModel/Model/RouterJson.lean; op format: harness/src/bin/c02.rs).
 
-  m : the op list run on the MODEL router (`Router.insert / remove / batchRemove / applyChangeSet`;
-      `cache` and `clone` are the identity on the model state — states are values), observing after
-      every op `len`, the sorted match ids of every probe, the id returned by `remove`; for a clone
-      op also the observations of the sub-ops on the clone and of the untouched original.
-  s : the same observations computed from the *live rule list* only: answers of `Router.build live`
-      (a model router rebuilt from scratch), `live.length`, `remove` returns the id iff it is live.
-      So "specification = rebuild", which is what `Rio.C02.run_equiv` relates the model to.
+  m : the op list run on the MODEL router with `Rio.Router.Op.run` (RouterOps.lean: `Router.insert /
+      remove / batchRemove / applyChangeSet`; `cache` is the identity on the model state), observing
+      after every op `len`, the sorted match ids of every probe and, for `remove`, the id of the route
+      `Router.remove` returns.  `clone` needs no model operation — states are values: the sub-ops run
+      on a copy, the original is the old value (so clone isolation is validated by the harness on
+      the implementation only, the model cannot alias).
+  s : the same observations computed from the *live rule list* only (`Rio.Router.Op.live`): answers
+      of `Router.build E live` (a model router rebuilt from scratch), `live.length`, `remove`
+      returns the id iff a live rule carries it.  "Specification = rebuild": exactly what
+      `Rio.C02.run_equiv`, `remove_returns`, `remove_absent` relate the model to.
 -/
 import Drivers.Common
 import RioModel.Model.RouterJson
+import RioModel.Model.RouterOps
 open Lean Rio.Router
 
-inductive Op where
-  | insert (r : Route)
-  | remove (id : String)
-  | batch (ids : List String)
-  | change (derive : Bool) (a u : List Route) (d : List String)
-  | cache
-  | clone (keepClone : Bool) (sub : List Op)
+/-- A history element of the harness: one of W2's operations, or clone-then-mutate. -/
+inductive HOp where
+  | simple (kind : String) (op : Op)
+  | clone (keepClone : Bool) (sub : List HOp)
 
-partial def parseOp (pool : Array Route) (j : Json) : Except String Op := do
+partial def parseOp (pool : Array Route) (j : Json) : Except String HOp := do
   let kind ← J.field j "op" J.str
   let routeAt (x : Json) : Except String Route := do
     let i ← J.nat x
     match pool[i]? with
     | some r => pure r
     | none => throw "pool index"
-  if kind == "insert" then return .insert (← J.field j "r" routeAt)
-  else if kind == "remove" then return .remove (← J.field j "id" J.str)
-  else if kind == "batch" then return .batch (← J.field j "ids" (J.arr J.str))
+  if kind == "insert" then return .simple kind (.insert (← J.field j "r" routeAt))
+  else if kind == "remove" then return .simple kind (.remove (← J.field j "id" J.str))
+  else if kind == "batch" then return .simple kind (.batchRemove (← J.field j "ids" (J.arr J.str)))
   else if kind == "change" || kind == "derive" then
-    return .change (kind == "derive") (← J.field j "a" (J.arr routeAt)) (← J.field j "u" (J.arr routeAt))
-      (← J.field j "d" (J.arr J.str))
-  else if kind == "cache" then return .cache
+    -- `derive` = RuleChangeSet::update_existing_router: clone + apply_change_set; on values: apply_change_set
+    return .simple kind (.changeSet (← J.field j "a" (J.arr routeAt)) (← J.field j "u" (J.arr routeAt))
+      (← J.field j "d" (J.arr J.str)))
+  else if kind == "cache" then
+    return .simple kind (.cache (← J.opt? j "n" J.nat))
   else if kind == "clone" then
     let keep ← J.field j "keep" J.str
     if keep != "clone" && keep != "orig" then throw "keep"
     return .clone (keep == "clone") (← J.field j "ops" (J.arr (parseOp pool)))
   else throw s!"op {kind}"
 
-/-- What the two sides have in common: a state with the five operations and the two observers. -/
+/-- What the two sides have in common: a state, one step, the return value of a removal, and the
+two observers. -/
 structure Sys (σ : Type) where
-  insert : Route → σ → σ
-  remove : String → σ → σ × Option String
-  batch : List String → σ → σ
-  change : List Route → List Route → List String → σ → σ
+  run : Op → σ → σ
+  removeRet : String → σ → Option String
   len : σ → Nat
   answer : σ → Req → List String
 
 def modelSys (E : Env) : Sys (Router E) where
-  insert r S := S.insert E r
-  remove id S := let r := S.remove E id; (r.1, r.2.map (·.id))
-  batch ids S := S.batchRemove E ids
-  change a u d S := S.applyChangeSet E a u d
+  run op S := op.run E S
+  removeRet id S := (S.remove E id).2.map (·.id)
   len S := S.len E
   answer S q := sortedIds (S.matchReq E q)
 
 /-- The specification: the live rule list; every answer comes from a router rebuilt from scratch. -/
 def specSys (E : Env) : Sys (List Route) where
-  insert r L := L ++ [r]
-  remove id L := (L.filter (fun r => r.id != id), if L.any (fun r => r.id == id) then some id else none)
-  batch ids L := L.filter (fun r => !ids.contains r.id)
-  change a u d L := (L.filter (fun r => !(d ++ u.map (·.id)).contains r.id)) ++ u ++ a
+  run op L := op.live L
+  removeRet id L := if L.any (fun r => r.id == id) then some id else none
   len L := L.length
   answer L q := sortedIds ((Router.build E L).matchReq E q)
 
 def observe {σ : Type} (sys : Sys σ) (probes : List Req) (s : σ) : List (String × Json) :=
   [("len", toJson (sys.len s)), ("m", Json.arr (probes.map fun q => J.ids (sys.answer s q)).toArray)]
 
-/-- One op: new state and observation. -/
-partial def step {σ : Type} (sys : Sys σ) (probes : List Req) (s : σ) (op : Op) : Except String (σ × Json) :=
-  match op with
-  | .insert r =>
-    let s' := sys.insert r s
-    pure (s', Json.mkObj ([("k", toJson "insert")] ++ observe sys probes s'))
-  | .remove id =>
-    let r := sys.remove id s
-    pure (r.1, Json.mkObj ([("k", toJson "remove"),
-      ("ret", match r.2 with | some i => toJson i | none => Json.null)] ++ observe sys probes r.1))
-  | .batch ids =>
-    let s' := sys.batch ids s
-    pure (s', Json.mkObj ([("k", toJson "batch")] ++ observe sys probes s'))
-  | .change derive a u d =>
-    let s' := sys.change a u d s
-    pure (s', Json.mkObj ([("k", toJson (if derive then "derive" else "change"))] ++ observe sys probes s'))
-  | .cache => pure (s, Json.mkObj ([("k", toJson "cache")] ++ observe sys probes s))
+/-- One history element: new state and observation. -/
+partial def step {σ : Type} (sys : Sys σ) (probes : List Req) (s : σ) (h : HOp) : Except String (σ × Json) :=
+  match h with
+  | .simple kind op =>
+    let s' := sys.run op s
+    let ret : List (String × Json) :=
+      match op with
+      | .remove id => [("ret", match sys.removeRet id s with | some i => toJson i | none => Json.null)]
+      | _ => []
+    pure (s', Json.mkObj ([("k", toJson kind)] ++ ret ++ observe sys probes s'))
   | .clone keepClone sub => do
-    -- the clone is a copy of the state; the original is the value `s` itself
     let mut c := s
     let mut subObs : Array Json := #[]
     for sop in sub do
       match sop with
       | .clone _ _ => throw "nested clone"
-      | .change true _ _ _ => throw "derive inside a clone"
+      | .simple "derive" _ => throw "derive inside a clone"
       | _ => pure ()
       let (c', o) ← step sys probes c sop
       c := c'
@@ -104,7 +94,7 @@ partial def step {σ : Type} (sys : Sys σ) (probes : List Req) (s : σ) (op : O
     pure (cur, Json.mkObj ([("k", toJson "clone"), ("sub", Json.arr subObs),
       ("orig", Json.mkObj (observe sys probes s))] ++ observe sys probes cur))
 
-def runAll {σ : Type} (sys : Sys σ) (probes : List Req) (init : σ) (ops : List Op) : Except String Json := do
+def runAll {σ : Type} (sys : Sys σ) (probes : List Req) (init : σ) (ops : List HOp) : Except String Json := do
   let mut s := init
   let mut out : Array Json := #[]
   for op in ops do
